@@ -343,7 +343,11 @@ int request::on_content_progress(size_t n)
 				if(lazy_content_type().is_form_urlencoded()) {
 					char const *data = &d->post_data[0];
 					char const *data_end = data + d->post_data.size();
-					parse_form_urlencoded(data,data_end,post_);
+					if(!parse_form_urlencoded(data,data_end,post_)) {
+						// refuse the form as a whole, like the query string; never hand out a part of it
+						post_.clear();
+						return 400;
+					}
 				}
 			}
 			else {
